@@ -247,6 +247,14 @@ func Units(p *Program, prop string) []*Unit {
 			continue
 		}
 		us = append(us, VerifyFunc(p, fc, prop))
+		if fc.Flags["robust"] && len(fc.Ghosts) > 0 {
+			ru := VerifyFunc(p, fc.RobustView(), prop)
+			ru.Name += " [robust]"
+			for _, o := range ru.World.Obls {
+				o.Name = strings.Replace(o.Name, "/"+fc.Key()+"/", "/"+fc.Key()+"[robust]/", 1)
+			}
+			us = append(us, ru)
+		}
 	}
 	for _, l := range p.Contracts.Lemmas {
 		if !hasProp(l.Props, prop) {
